@@ -7,7 +7,37 @@ ALL_HAVE = ['ASINH', 'ACOSH', 'ATANH', 'EXPM1', 'LOG1P', 'ATAN2', 'HYPOT', 'CSQR
             'CASINH', 'CACOSH', 'CATANH']
 
 
+# a covering array of strength 3 over the 23 switches (30 rows, greedy, computed once): every assignment of every THREE switches occurs in at
+# least one row. The fallback body of one function calls other functions through whatever binding the build gives them, so a defect may need a
+# COMBINATION of switch positions (seeded change C10-J: cpow off, clog off, cexp on - never built by "all on / all off / each off alone").
+_COVER3 = [1482472, 7151647, 7920515, 5926005, 2737518, 6812196, 1184603, 5613013, 2981586, 4402606, 3688860, 5170, 5120481, 1034411, 6481691,
+           3410437, 5217040, 3880141, 5372408, 6047542, 3399858, 6863558, 6774079, 2635576, 1688078, 2510695, 1377993, 5164250, 1342024, 55287]
+
+
+def _row(k):
+    return [h for i, h in enumerate(ALL_HAVE) if _COVER3[k] >> (22 - i) & 1]
+
+
+def _arms():
+    import vf_arms
+    return vf_arms.arms(ALL_HAVE, ('src/complex.c', 'src/math.c', 'include/a/complex.h', 'include/a/math.h'))
+
+
 def _configs(tier):
+    out = _configs0(tier)
+    import os
+    seed = int(os.environ.get('VERIF_SEED', '1') or '1')
+    if tier == 'quick':
+        # four rows of the covering array per run (which four rotates with VERIF_SEED)
+        out += [dict(name='cover3-row%d-f64' % k, real=8, have=_row(k), nworkers=2) for k in [(4 * seed + j) % len(_COVER3) for j in range(4)]]
+        out += [dict(c, nworkers=2) for c in _arms()]
+    else:
+        out += [dict(name='cover3-row%d-%s' % (k, 'f64' if (k + seed) % 2 else 'f32'), real=8 if (k + seed) % 2 else 4, have=_row(k), nworkers=2) for k in range(len(_COVER3))]
+        out += [dict(c, nworkers=2) for c in _arms()]
+    return out
+
+
+def _configs0(tier):
     # the fallback bodies compiled by clang 14 (half of the cases): compiler-conditional code and unspecified evaluation order
     out = [dict(name='all-off-f64-clang', real=8, have=[], libcc='clang', nworkers=3, of=6),
            # ... and with the optimisation level and aliasing rules of the release build
